@@ -26,6 +26,18 @@ from pathlib import Path
 from src.core.types import Violation
 
 
+def _number_text(value: int | float) -> str:
+    """Render a numeric literal's value for messages.
+
+    Python refuses to convert integers of more than 4300 digits to decimal text
+    (ValueError); such a literal is shown in hexadecimal instead of aborting the run.
+    """
+    try:
+        return str(value)
+    except ValueError:
+        return hex(int(value))
+
+
 class ViolationBuilder:
     """Builds violations for magic number detections."""
 
@@ -55,6 +67,7 @@ class ViolationBuilder:
         Returns:
             Violation object with details about the magic number
         """
+        value = _number_text(value)  # type: ignore[assignment]
         message = f"Magic number {value} should be a named constant"
 
         suggestion = f"Extract {value} to a named constant (e.g., CONSTANT_NAME = {value})"
@@ -84,6 +97,7 @@ class ViolationBuilder:
         Returns:
             Violation object with details about the magic number
         """
+        value = _number_text(value)  # type: ignore[assignment]
         message = f"Magic number {value} should be a named constant"
 
         suggestion = (
@@ -115,6 +129,7 @@ class ViolationBuilder:
         Returns:
             Violation object with details about the magic number
         """
+        value = _number_text(value)  # type: ignore[assignment]
         message = f"Magic number {value} should be a named constant"
 
         suggestion = f"Extract {value} to a named constant (e.g., const CONSTANT_NAME = {value})"
